@@ -11,7 +11,7 @@ from ..runner import Leg, Res, libcall
 
 PROPERTY = 'C06'
 NEED_C = True
-RULE = ('Generated leg: collections of 1..7 series (lengths 1..5, equal/unequal, ndim 1..3; list of lists / arrays / '
+RULE = ('Generated leg: collections of 1..7 series, one case in 8 with 8..20 series (lengths 1..5, equal/unequal, ndim 1..3; list of lists / arrays / '
         'array.array, 2-D and 3-D arrays) x block (None, triangular, rectangular with explicit True/False flag, blocks '
         'selecting no pair) x compact/square/only_triu x a settings subset x {Python serial, C serial}. Oracle: the '
         'row-major list of selected (row, column) pairs written from the property text, each entry = reference DTW; '
@@ -66,7 +66,7 @@ def lib_block(b):
 @st.composite
 def _case(draw):
     ndim = draw(st.sampled_from([1, 1, 1, 2, 3]))
-    n = draw(st.integers(1, 7))
+    n = draw(gen.count(1, 7, 20, one_in=8))
     eq = draw(st.booleans())
     L0 = draw(st.integers(1, 5))
     series = []
